@@ -82,7 +82,10 @@ def yielding_storage(nameserver):
             finally:
                 sc = S.CUR
                 if sc is not None and sc.controlled() and not sc.abort:
-                    sc.yield_point()
+                    if SLOW[0] and name in ("__contains__", "__getitem__"):
+                        sc.sleep(3.0)       # a storage that takes its time (longer than the communication timeout configured then)
+                    else:
+                        sc.yield_point()
         method.__name__ = name
         return method
     ns = {n: wrap(n) for n in ("__getitem__", "__setitem__", "__delitem__", "__contains__", "__len__", "everything", "remove_items")}
@@ -91,6 +94,7 @@ def yielding_storage(nameserver):
 
 
 RUNS = [0]
+SLOW = [False]      # this run's storage is slow, and a communication timeout shorter than its accesses is configured
 
 
 def run_once(nameserver, errors, chooser, scen, tfilter, dbdir=None):
@@ -103,6 +107,8 @@ def run_once(nameserver, errors, chooser, scen, tfilter, dbdir=None):
         from Pyro5 import config
         RUNS[0] += 1
         config.SERVERTYPE = ("thread", "multiplex")[RUNS[0] % 2]
+        SLOW[0] = not dbdir and RUNS[0] % 5 == 0
+        config.COMMTIMEOUT = 2.0 if SLOW[0] else 0.0
         if dbdir:
             db = os.path.join(dbdir, "lin.sqlite")
             if os.path.exists(db):
@@ -131,7 +137,53 @@ def run_once(nameserver, errors, chooser, scen, tfilter, dbdir=None):
             groups = [[o] for o in scen["ops"]]
         for i, ops in enumerate(groups):
             sc.spawn("t%d" % (i + 1), worker(i + 1, [c14.norm_op(o) for o in ops]))
-        sc.yield_point(lambda: done[0] == len(scen["ops"]))
+        extra = 0
+        if scen.get("cleaner") is not None:
+            # the name server's own auto-cleaner makes one sweep meanwhile, in its own thread as always: the registration it finds
+            # dead (nothing listens where it points, and has not for longer than the cleaner waits) is one more removal by name
+            extra = 1
+            target = c14.name_str(scen["cleaner"])
+            tid = {}
+            orig_remove = ns.remove
+
+            def logged_remove(*a, **k):
+                if sc.me() != tid.get("c"):
+                    return orig_remove(*a, **k)
+                nm = k.get("name", a[0] if a else None)
+                o = c14.norm_op({"op": "remove", "sel": "name", "arg": c14.name_codes(nm), "kind": "none", "meta": False})
+                log.append({"e": "call", "th": 3, "o": o})
+                n = orig_remove(*a, **k)
+                log.append({"e": "ret", "th": 3, "r": c14.res("count", n=n)})
+                return n
+            ns.remove = logged_remove
+
+            class VT(object):
+                naps = [0]
+
+                @staticmethod
+                def time():
+                    return sc.now
+
+                @staticmethod
+                def sleep(d):
+                    VT.naps[0] += 1
+                    if VT.naps[0] > 1:
+                        cleaner.stop = True        # one sweep
+                    sc.sleep(d)
+            config.NS_AUTOCLEAN = 3.0
+            nameserver.time = VT
+            cleaner = nameserver.AutoCleaner(ns)
+            cleaner.last_cleaned = sc.now - 100.0
+            cleaner.unreachable = {target: sc.now - 30.0}
+
+            def cleaner_body():
+                tid["c"] = sc.me()
+                try:
+                    cleaner.run()
+                finally:
+                    done[0] += 1
+            sc.spawn("cleaner", cleaner_body)
+        sc.yield_point(lambda: done[0] == len(scen["ops"]) + extra)
         # afterwards, sequentially: every shared name is looked up again (a completed history must explain these reads too)
         for nm in ([1], [1, 1]):
             o = {"op": "lookup", "name": nm, "meta": True}
@@ -142,6 +194,12 @@ def run_once(nameserver, errors, chooser, scen, tfilter, dbdir=None):
         log.append({"e": "ret", "th": 4, "r": c14.apply_op(ns, o, errors)})
         log.append({"e": "end", "list": c14.listing(ns)})
     res, sc = memnet.run(main, chooser=chooser, trace_filter=tfilter, max_steps=20000)
+    from Pyro5 import config as _config
+    import time as _time
+    _config.COMMTIMEOUT = 0.0
+    _config.NS_AUTOCLEAN = 0.0
+    nameserver.time = _time
+    SLOW[0] = False
     if res.get("hang"):
         log.append({"e": "hang"})
     for name, x in sc.errors:
@@ -154,6 +212,7 @@ def scen_class(scen):
 
 
 def run(ctx):
+    memnet.install()       # (the auto-cleaner's probes go to the in-memory network: nothing listens there)
     nameserver = setup()
     from Pyro5 import errors
     ctx.rule = ("cases = (scenario: initial state x one operation per thread, enumerated by TLC) x (thread schedule: preemption-bounded DFS "
@@ -199,6 +258,19 @@ def run(ctx):
             key = json.dumps(tr, sort_keys=True)
             if key not in traces:
                 traces[key] = (tr, {"scenario": scen, "schedule": list(ch.names), "backend": "memory"})
+    # the auto-cleaner's sweep next to two clients' operations: the cleaner finds one of the initially registered names dead
+    with_init = [s for s in scen2 if s["init"]]
+    rng.shuffle(with_init)
+    for scen in with_init[:ctx.pick(60, 600)]:
+        scen = dict(scen, cleaner=scen["init"][RUNS[0] % len(scen["init"])])
+
+        def once_cl(ch, scen=scen):
+            return run_once(nameserver, errors, ch, scen, tfilter)
+        for ch, tr in S.explore(once_cl, max_preemptions=2, limit=ctx.pick(12, 60), rng=rng, random_runs=ctx.pick(3, 12)):
+            runs += 1
+            key = "cl" + json.dumps(tr, sort_keys=True)
+            if key not in traces:
+                traces[key] = (tr, {"scenario": scen, "schedule": list(ch.names), "backend": "memory+cleaner"})
     if True:
         # the sqlite storage reads and writes an entry in several statements: every pair of operations (quick: the pairs with a reader
         # next to a writer, sampled)
@@ -218,6 +290,9 @@ def run(ctx):
         finally:
             shutil.rmtree(dbdir, ignore_errors=True)
     ctx.evaluations = runs
+    swept = sum(1 for tr, m in traces.values() if m["backend"] == "memory+cleaner"
+                and any(e["e"] == "ret" and e.get("th") == 3 and e["r"].get("n") == 1 for e in tr))
+    ctx.extra["histories_in_which_the_cleaner_removed_its_name"] = swept
     items = list(traces.values())
     for k in traces:
         ctx.nontrivial.add(k)
@@ -230,6 +305,8 @@ def run(ctx):
             hang = any(e["e"] in ("hang", "thread-error") for e in tr)
             kind = "C15.InternalError(%s)" % internal[0].split(":")[0] if internal else ("C15.Hang" if hang else "C15.NotLinearizable")
             ctx.violation("%s [%s %s]" % (kind, meta["backend"], scen_class(meta["scenario"])), {"meta": meta, "history": tr})
+    if not ctx.violations and swept < 20:
+        raise util.MachineryError("vacuity: the auto-cleaner removed its name in only %d histories" % swept)
 
 
 def replay(ctx, path):
